@@ -4,8 +4,10 @@ patch="$1"; shift
 cd /repo || exit 2
 if ! git diff --quiet; then echo "repo not clean"; exit 2; fi
 git apply "$patch" || { echo "patch does not apply"; exit 2; }
+rm -rf /verif/work/evidence.keep; cp -r /verif/evidence /verif/work/evidence.keep   # evidence written against a changed tree is not kept
 for p in "$@"; do
   (cd /verif && ./check "$p" --tier quick 2>&1 | grep -E "VIOLATION|KNOWN|quick:" | cut -c1-420)
 done
-git -C /repo checkout -- . 
+git -C /repo checkout -- .
+rm -rf /verif/evidence; mv /verif/work/evidence.keep /verif/evidence
 git -C /repo status --short | head -3
